@@ -915,6 +915,8 @@ func stressShared(seed int64, scale int) int {
 			return 30 * time.Microsecond
 		}).
 		OnRetryScheduled(func(e failsafe.ExecutionScheduledEvent[int]) { _ = e.LastError(); _ = e.Attempts() }).Build()
+	// a second retry policy with exponential backoff: its executors keep per-execution backoff state
+	rpBackoff := retrypolicy.Builder[int]().WithMaxRetries(3).WithBackoff(20*time.Microsecond, 200*time.Microsecond).WithJitter(5 * time.Microsecond).Build()
 	to := timeout.Builder[int](400 * time.Microsecond).OnTimeoutExceeded(func(e failsafe.ExecutionDoneEvent[int]) { _ = e.Attempts() }).Build()
 	hp := hedgepolicy.BuilderWithDelayFunc[int](func(e failsafe.ExecutionAttempt[int]) time.Duration {
 		_ = e.LastError()
@@ -929,6 +931,8 @@ func stressShared(seed int64, scale int) int {
 		{hp, to},
 		{rp, rlSmooth, cb},
 		{to, rp},
+		{rpBackoff, cb},
+		{fb, rpBackoff, to},
 		{hp, rp},         // hedge attempts share the inner retry executor: open known finding D4 under the race detector
 		{fb, hp, rp, cb}, // the same, with a breaker recording from the hedge goroutines
 	}
